@@ -51,6 +51,33 @@ def holder_pairs(rng, count):
     return fails, n_eval
 
 
+def bounds_not_aliased(rng, count):
+    """the curve fills the box it was GIVEN: editing the caller's bound arrays in place afterwards (re-using the buffers for the next
+    box, shrinking a problem's box) must not move it - otherwise images taken before and after belong to two different curves"""
+    import numpy as np
+    from iOpt.evolvent.evolvent import Evolvent
+    fails = []
+    for _ in range(count):
+        n = rng.choice([2, 3, 4])
+        m = rng.choice([3, 6, 10])
+        lo, hi = H.random_box(rng, n)
+        la, ha = np.array(lo, dtype=np.double), np.array(hi, dtype=np.double)
+        via_setbounds = rng.random() < 0.5
+        if via_setbounds:
+            ev = Evolvent([0.0] * n, [1.0] * n, n, m); ev.SetBounds(la, ha)
+        else:
+            ev = Evolvent(la, ha, n, m)
+        xs = [rng.random() for _ in range(4)] + [0.5]
+        before = [[float(v) for v in ev.GetImage(x)] for x in xs]
+        la += rng.choice([1.0, 5.0]); ha *= 2.0; ha += 7.0
+        after = [[float(v) for v in ev.GetImage(x)] for x in xs]
+        if before != after:
+            k = next(i for i in range(len(xs)) if before[i] != after[i])
+            fails.append(({'n': n, 'm': m, 'lo': lo, 'hi': hi, 'via_setbounds': via_setbounds, 'x': xs[k]},
+                          'after the caller edited its bound arrays in place the image of x=%r moved from %r to %r (N=%d, m=%d): the evolvent shares memory with the arrays it was given' % (xs[k], before[k], after[k], n, m)))
+    return fails
+
+
 def deep_adjacency(rng, count):
     """adjacency of consecutive subintervals and nesting m -> m+1 at deep densities, around coarse boundaries, used objects"""
     fails = []
@@ -119,6 +146,9 @@ def run(chk):
     chk.evaluations += n_eval
     for case, msg in fails[:3]:
         found += chk.violation('deep-adjacency', msg, {'kind': 'deep', 'case': case})
+    for case, msg in bounds_not_aliased(rng, 40 if thorough else 12)[:2]:
+        chk.evaluations += 1
+        found += chk.violation('holder', msg, {'kind': 'alias', 'case': case})
     if not found:
         for c in bad_img[:2]:
             chk.violation('image-mismatch', 'GetImage disagrees with the model (code %d)' % c['code'], {'kind': 'image-corr', 'case': c}, found_input=False)
